@@ -127,7 +127,8 @@ theorem SRel.pinCL_step {σ σ' s s' : State N} {β' : Inj N} (h : SRel Q cx β 
   · omega
 
 theorem SRel.inv_step {σ σ' s s' : State N} {β' : Inj N} (h : SRel Q cx β σ σ') (he : β.ext β')
-    (hf : Frame β σ σ' s s') : cx.I N β' s s' := cx.stable N β β' σ σ' s s' he hf h.inv
+    (hf : Frame β σ σ' s s') (hp : β.samePins β' := by exact ⟨rfl, rfl, rfl, rfl⟩) : cx.I N β' s s' :=
+  cx.stable N β β' σ σ' s s' he hp hf h.inv
 
 section
 variable {σ σ' : State N} (h : SRel Q cx β σ σ')
